@@ -200,6 +200,9 @@ def cases(tier, seed):
             yield {'state': state, 'seed': 'tiny', 'mut': mlabel, 'bytes': mraw, 'ending': 'close'}
             if mlabel.endswith('-empty') or thorough:
                 yield {'state': state, 'seed': 'tiny', 'mut': mlabel, 'bytes': mraw, 'ending': 'reset'}
+            if mlabel.endswith('-empty'):
+                # the peer closes and the operating system reports an error when the provider closes its own end
+                yield {'state': state, 'seed': 'tiny', 'mut': mlabel, 'bytes': mraw, 'ending': 'close-error'}
         # the peer does not go quiet after the fault but sends one more stray PDU 6 s later: where the fault armed ARTIM, nothing
         # re-arms it (AA-7), the connection is closed 10 s after the fault
         for mlabel, mraw in (('type@0=57', b'\x57' + seeds(state)[0][1][1:]), ('tiny-0a-empty', bytes([0x0A, 0, 0, 0, 0, 0]))):
@@ -278,6 +281,8 @@ def run_case(case):
     n_pre = len(pre)
     if case['ending'] == 'close':
         hist.append(('close',))
+    elif case['ending'] == 'close-error':
+        hist += [('close-error',), ('close',)]
     elif case['ending'] == 'reset':
         hist.append(('reset',))       # the peer goes away without reading what the provider answered: recv() fails
     elif case['ending'] == 'send-fails':
@@ -340,6 +345,8 @@ def run_case(case):
             cands = ['Evt17']
         elif ev[0] == 'user':
             cands = ['Evt7'] if 'Evt7' in delta.get(m, {}) else [None]
+        elif ev[0] == 'close-error':
+            cands = [None]          # arming the error is not an event of the protocol
         else:
             cands = ['Evt18'] if (m[2] and ev[1] == 5.5) else [None]
         obs = ([w[0] for w in wire], [x[0] for x in st['inds']], st['state'] + 1, st['timer'], st['sock'])
@@ -368,7 +375,7 @@ def run_case(case):
         else:
             m = matched
     if fin['status'] == 'quiescent-end':
-        if case['ending'] in ('close', 'reset', 'send-fails', 'accept-then-close') and (fin['state'] != 0 or fin['sock'] == 'open'):
+        if case['ending'] in ('close', 'close-error', 'reset', 'send-fails', 'accept-then-close') and (fin['state'] != 0 or fin['sock'] == 'open'):
             viol.append((sig + ':not-idle-after-close', 'after the peer closed: Sta%d socket %s (%s)' % (fin['state'] + 1, fin['sock'], where)))
         if case['ending'] == 'chatter' and ok_model and m[2] and (fin['state'] != 0 or fin['sock'] == 'open'):
             viol.append((sig + ':artim-rearmed', 'the fault left the provider with ARTIM armed; 6 s later the peer sent another stray PDU, and 10.5 s after the '
